@@ -289,6 +289,10 @@ FIXED = [
      {"t": "obj", "calls": [], "raises": [], "attrs": [["page", {"t": "leaf", "v": 5}], ["search", {"t": "leaf", "v": "s"}], ["pick", {"t": "leaf", "v": 4}]]}),
     ("protocol-argument-names-default-only", "{ page }", {"t": "dict", "kv": [["page", {"t": "leaf", "v": 5}]]}),
     ("root-none", "{ keys values items { id } }", {"t": "none"}),
+    # audit C04-F1 / fix d72dd53: a bool at an Int position is the INTEGER 1 / 0 in the response (JSON `1`, not `true`);
+    # the model's serializeInt and the Python reference returned the bool until round ex2 (json.dumps tells them apart)
+    ("bool-at-int-position", "{ values pop count }",
+     {"t": "dict", "kv": [["values", {"t": "leaf", "v": True}], ["pop", {"t": "leaf", "v": False}], ["count", {"t": "leaf", "v": True}]]}),
 ]
 
 
